@@ -682,3 +682,585 @@ Qed.
 
 Lemma sort_fuel_enough l : srv_sort l <> None.
 Proof. destruct (srv_sort_fuel_enough l) as (l' & ->). discriminate. Qed.
+
+(* ------------------------------------------------------------------------------------------ *)
+(* (4) correctness on well-formed responses: list lemmas                                         *)
+(* ------------------------------------------------------------------------------------------ *)
+Lemma octet_rd buf i : octet buf i = rd buf i.
+Proof. reflexivity. Qed.
+
+Lemma rd_nil k : rd [] k = None.
+Proof. unfold rd. destruct (k <? 0); [reflexivity|]. destruct (Z.to_nat k); reflexivity. Qed.
+Lemma rd_0 c r : rd (c :: r) 0 = Some c.
+Proof. reflexivity. Qed.
+
+Lemma rd_app_l : forall a b k, k < zlen a -> rd (a ++ b) k = rd a k.
+Proof.
+  induction a as [|x a IH]; intros b k H.
+  - unfold zlen in H. cbn in H. unfold rd. destruct (k <? 0) eqn:E; [reflexivity|lia].
+  - destruct (Z_lt_le_dec k 0) as [N|N]; [unfold rd; destruct (k <? 0) eqn:E; [reflexivity|lia]|].
+    destruct (Z.eq_dec k 0) as [->|Hk]; [reflexivity|].
+    cbn [app]. rewrite !rd_cons by lia. apply IH. unfold zlen in *. cbn [length] in H. lia.
+Qed.
+Lemma rd_app_r : forall a b k, zlen a <= k -> rd (a ++ b) k = rd b (k - zlen a).
+Proof.
+  induction a as [|x a IH]; intros b k H.
+  - cbn [app]. unfold zlen. cbn [length]. f_equal. lia.
+  - unfold zlen in H. cbn [length] in H. cbn [app]. rewrite rd_cons by lia.
+    rewrite IH by (unfold zlen; lia). f_equal. unfold zlen. cbn [length]. lia.
+Qed.
+
+Lemma rd_skipn : forall n l k, 0 <= k -> rd (skipn n l) k = rd l (Z.of_nat n + k).
+Proof.
+  induction n as [|n IH]; intros l k Hk; [cbn [skipn]; f_equal; lia|].
+  destruct l as [|x l]; [cbn [skipn]; rewrite !rd_nil; reflexivity|].
+  cbn [skipn]. rewrite IH by lia. rewrite (rd_cons x l) by lia. f_equal. lia.
+Qed.
+Lemma rd_firstn : forall n l k, k < Z.of_nat n -> rd (firstn n l) k = rd l k.
+Proof.
+  induction n as [|n IH]; intros l k Hk.
+  - unfold rd. destruct (k <? 0) eqn:E; [reflexivity|lia].
+  - destruct l as [|x l]; [reflexivity|]. cbn [firstn].
+    destruct (Z_lt_le_dec k 0) as [N|N]; [unfold rd; destruct (k <? 0) eqn:E; [reflexivity|lia]|].
+    destruct (Z.eq_dec k 0) as [->|Hk0]; [reflexivity|].
+    rewrite !rd_cons by lia. apply IH. lia.
+Qed.
+
+Lemma slice_spec buf i n lab : slice buf i n = Some lab ->
+  0 <= i /\ 0 <= n /\ i + n <= zlen buf /\ zlen lab = n /\
+  forall k, 0 <= k < n -> rd lab k = rd buf (i + k).
+Proof.
+  unfold slice. destruct ((0 <=? i) && (0 <=? n) && (i + n <=? zlen buf)) eqn:E; [|discriminate].
+  intros H; inversion H; subst; clear H. repeat split; try lia.
+  - unfold zlen in *. rewrite firstn_length, skipn_length. lia.
+  - intros k Hk. rewrite rd_firstn by lia. rewrite rd_skipn by lia. f_equal. lia.
+Qed.
+
+Lemma copy_bytes_spec : forall n buf src tgt dst tgt',
+  copy_bytes n buf src tgt dst = Some tgt' ->
+  zlen tgt' = zlen tgt /\
+  (forall k, 0 <= k < Z.of_nat n -> rd tgt' (dst + k) = rd buf (src + k)) /\
+  (forall j, j < dst \/ dst + Z.of_nat n <= j -> rd tgt' j = rd tgt j).
+Proof.
+  induction n as [|n IH]; intros buf src tgt dst tgt' H; cbn [copy_bytes] in H.
+  - inversion H; subst. repeat split; auto. intros k Hk. lia.
+  - destruct (rd buf src) as [b|] eqn:Hb; [|discriminate].
+    destruct (wr tgt dst b) as [t1|] eqn:W; [|discriminate].
+    apply wr_inv in W. destruct W as (Hd & L1 & R1 & O1).
+    apply IH in H. destruct H as (L2 & C2 & O2). repeat split; [lia| |].
+    + intros k Hk. destruct (Z.eq_dec k 0) as [->|Hk0].
+      * rewrite !Z.add_0_r. rewrite O2 by lia. rewrite R1. auto.
+      * replace (dst + k) with (dst + 1 + (k - 1)) by lia. rewrite C2 by lia. f_equal. lia.
+    + intros j Hj. rewrite O2 by lia. apply O1. lia.
+Qed.
+
+Lemma cstr_pointwise : forall s t,
+  (forall k, 0 <= k < zlen s -> rd t k = rd s k) -> rd t (zlen s) = Some 0 -> ~ In 0 s ->
+  cstr t = Some s.
+Proof.
+  induction s as [|c s IH]; intros t Hs H0 Hn.
+  - destruct t as [|x t]; [rewrite rd_nil in H0; discriminate|].
+    cbn in H0. inversion H0; subst. reflexivity.
+  - assert (Hc := Hs 0 ltac:(unfold zlen; cbn [length]; lia)). rewrite rd_0 in Hc.
+    destruct t as [|x t]; [rewrite rd_nil in Hc; discriminate|]. rewrite rd_0 in Hc. inversion Hc; subst x.
+    cbn [cstr]. destruct (c =? 0) eqn:E; [exfalso; apply Hn; left; lia|].
+    rewrite (IH t); [reflexivity| | |].
+    + intros k Hk. assert (Q := Hs (k + 1) ltac:(unfold zlen in *; cbn [length]; lia)).
+      rewrite !rd_cons in Q by lia. replace (k + 1 - 1) with k in Q by lia. exact Q.
+    + unfold zlen in *. cbn [length] in H0. rewrite rd_cons in H0 by lia.
+      replace (Z.of_nat (S (length s)) - 1) with (Z.of_nat (length s)) in H0 by lia. exact H0.
+    + intros X. apply Hn. right. exact X.
+Qed.
+
+(* every label followed by a dot: what the decoder appends before the terminator replaces the last dot *)
+Fixpoint tail_text (labels : list (list Z)) : list Z :=
+  match labels with
+  | [] => []
+  | l :: r => l ++ 46 :: tail_text r
+  end.
+
+Lemma tail_text_dotted : forall labels, labels <> [] -> tail_text labels = dotted labels ++ [46].
+Proof.
+  induction labels as [|l r IH]; intros H; [congruence|].
+  destruct r as [|l2 r]; [reflexivity|].
+  cbn [tail_text dotted] in *. rewrite IH by discriminate. rewrite <- app_assoc. reflexivity.
+Qed.
+Lemma wire_len_tail : forall labels, wire_len labels = 1 + zlen (tail_text labels).
+Proof.
+  induction labels as [|l r IH]; [reflexivity|]. cbn [wire_len tail_text]. rewrite IH.
+  unfold zlen. rewrite app_length. cbn [length]. lia.
+Qed.
+Lemma dotted_nul_free : forall labels, text_labels labels -> ~ In 0 (dotted labels).
+Proof.
+  induction labels as [|l r IH]; intros H; [intros []|].
+  inversion H; subst. destruct r as [|l2 r].
+  - cbn [dotted]. intros X. eapply Forall_forall in H2; eauto.
+  - cbn [dotted]. intros X. apply in_app_or in X. destruct X as [X|[X|X]].
+    + eapply Forall_forall in H2; eauto.
+    + discriminate.
+    + apply IH in H3. auto.
+Qed.
+
+(* facts about names that the relation guarantees *)
+Lemma name_run_facts buf : forall lim off labels e, name_run buf lim off labels e ->
+  off + 1 <= e <= zlen buf /\ 0 <= off /\ Forall (fun l => 1 <= zlen l) labels.
+Proof.
+  induction 1.
+  - rewrite octet_rd in H. apply rd_bound in H. repeat split; try lia. constructor.
+  - apply slice_spec in H1. rewrite octet_rd in H. apply rd_bound in H.
+    destruct IHname_run as (A & B & C). repeat split; try lia. constructor; [lia|exact C].
+  - rewrite octet_rd in H, H1. apply rd_bound in H. apply rd_bound in H1.
+    destruct IHname_run as (A & B & C). repeat split; try lia. exact C.
+Qed.
+
+(* ------------------------------------------------------------------------------------------ *)
+(* (4) message_name_get on well-formed names                                                    *)
+(* ------------------------------------------------------------------------------------------ *)
+(* what a successful expansion into &target[base] leaves behind, given that name_len characters
+   were already there and T (every remaining label followed by '.') is appended *)
+Definition res_ok (tgt tgt' : list Z) (base nlen : Z) (T : list Z) : Prop :=
+  zlen tgt' = zlen tgt /\
+  (forall k, 0 <= k < base + nlen -> (k < base + nlen - 1 \/ 0 < zlen T \/ nlen = 0) -> rd tgt' k = rd tgt k) /\
+  (forall k, 0 <= k < zlen T - 1 -> rd tgt' (base + nlen + k) = rd T k) /\
+  (0 < zlen T -> rd tgt' (base + nlen + zlen T - 1) = Some 0) /\
+  (zlen T = 0 -> rd tgt' (base + Z.max nlen 1 - 1) = Some 0).
+
+Section Names.
+Variable buf : list Z.
+Hypothesis HB : bytes buf.
+Hypothesis Hsz : zlen buf <= 65536.
+Let blen := zlen buf.
+
+Definition rec_skips (rec : Z -> list Z -> option Z -> Z -> nres) (lim : Z) : Prop :=
+  forall p labels e t mx, p < lim -> name_run buf p p labels e -> rec p t None mx = NRet (e - p) t.
+
+Lemma skip_loop rec : forall lim off labels e, name_run buf lim off labels e ->
+  rec_skips rec lim -> 0 <= lim <= off ->
+  forall f t nlen nmax, Z.of_nat f > blen - off ->
+    name_loop rec buf blen lim f off t None nlen nmax = NRet (e - lim) t.
+Proof.
+  induction 1 as [lim off H0|lim off n lab rest e H0 Hn Hs Hr IH|lim off hi lo p rest e' Hhi Hr1 Hlo Hp Hlt Hsub _];
+    intros Hrec Hle f t nlen nmax Hf; assert (Hbl : blen <= 65536) by exact Hsz.
+  - rewrite octet_rd in H0. pose proof (rd_bound _ _ _ H0) as B. fold blen in B.
+    destruct f as [|f]; [lia|]. cbn [name_loop].
+    destruct (off >=? blen) eqn:E; [lia|]. rewrite H0. rewrite u32_small by lia.
+    cbn [Z.eqb]. unfold name_finish. rewrite u32_small by lia. f_equal; lia.
+  - rewrite octet_rd in H0. pose proof (rd_bound _ _ _ H0) as B. fold blen in B.
+    apply slice_spec in Hs. destruct Hs as (S1 & S2 & S3 & S4 & S5). fold blen in S3. unfold MAX_LABEL in Hn.
+    destruct f as [|f]; [lia|]. cbn [name_loop].
+    destruct (off >=? blen) eqn:E; [lia|]. rewrite H0. rewrite (u32_small (off + 1)) by lia.
+    destruct (n =? 0) eqn:E0; [lia|].
+    rewrite label_type_octet by lia. replace (n / 64 * 64) with 0 by lia.
+    change (0 =? label_tag) with true. cbn iota.
+    rewrite (u32_small (off + 1 + n - 1)), (u32_small (off + 1 + n)) by lia.
+    destruct (off + 1 + n - 1 >=? blen) eqn:E2; [lia|].
+    apply IH; auto; lia.
+  - rewrite octet_rd in Hhi, Hlo. pose proof (rd_bound _ _ _ Hhi) as B. pose proof (rd_bound _ _ _ Hlo) as B2.
+    fold blen in B, B2. pose proof (rd_byte _ _ _ HB Hlo) as Blo. unfold POINTER_TAG in *.
+    destruct f as [|f]; [lia|]. cbn [name_loop].
+    destruct (off >=? blen) eqn:E; [lia|]. rewrite Hhi. rewrite (u32_small (off + 1)) by lia.
+    destruct (hi =? 0) eqn:E0; [lia|].
+    rewrite label_type_octet by lia. replace (hi / 64 * 64) with 192 by lia.
+    change (192 =? label_tag) with false. change (192 =? pointer_tag) with true. cbn iota.
+    destruct (off + 1 >=? blen) eqn:E2; [lia|]. rewrite Hlo.
+    rewrite pointer_octets by lia. replace (hi mod 64 * 256 + lo) with p by lia.
+    pose proof (name_run_facts _ _ _ _ _ Hsub) as (F1 & F2 & _).
+    rewrite (u32_small p), (u32_small (off + 1 + 1)) by lia.
+    rewrite pointer_guard_spec. destruct (lim <=? p) eqn:E3; [lia|].
+    rewrite (Hrec p rest e' t _ Hlt Hsub).
+    destruct (e' - p =? 0) eqn:E4; [lia|]. rewrite u32_small by lia. f_equal; lia.
+Qed.
+
+Lemma skip_get : forall d off labels e t mx f,
+  name_run buf off off labels e -> Z.of_nat d > off -> Z.of_nat f > blen ->
+  name_get d f buf blen off t None mx = NRet (e - off) t.
+Proof.
+  induction d as [|d IH]; intros off labels e t mx f H Hd Hf.
+  - pose proof (name_run_facts _ _ _ _ _ H). lia.
+  - cbn [name_get]. pose proof (name_run_facts _ _ _ _ _ H) as (F1 & F2 & _).
+    eapply skip_loop; eauto; try lia.
+    intros p labels' e'' t' mx' Hp Hrun. pose proof (name_run_facts _ _ _ _ _ Hrun).
+    eapply IH; eauto; lia.
+Qed.
+
+Definition rec_expands (rec : Z -> list Z -> option Z -> Z -> nres) (lim : Z) : Prop :=
+  forall p labels e tgt base nmax, p < lim -> name_run buf p p labels e -> text_labels labels ->
+    0 <= base -> zlen (tail_text labels) < nmax -> base + nmax <= zlen tgt ->
+    exists tgt', rec p tgt (Some base) nmax = NRet (e - p) tgt' /\ res_ok tgt tgt' base 0 (tail_text labels).
+
+Lemma rd_head_nonzero (lab : list Z) : 1 <= zlen lab -> Forall (fun c => c <> 0) lab ->
+  exists c, rd lab 0 = Some c /\ c <> 0.
+Proof.
+  destruct lab as [|c lab]; [unfold zlen; cbn; lia|]. intros _ H. inversion H; subst.
+  exists c. split; [reflexivity|assumption].
+Qed.
+
+Lemma target_loop rec : forall lim off labels e, name_run buf lim off labels e ->
+  rec_expands rec lim -> 0 <= lim <= off -> text_labels labels ->
+  forall f tgt base nlen nmax, Z.of_nat f > blen - off -> 0 <= base -> 0 <= nlen ->
+    nlen + zlen (tail_text labels) < nmax -> base + nmax <= zlen tgt ->
+    exists tgt', name_loop rec buf blen lim f off tgt (Some base) nlen nmax = NRet (e - lim) tgt' /\
+                 res_ok tgt tgt' base nlen (tail_text labels).
+Proof.
+  induction 1 as [lim off H0|lim off n lab rest e H0 Hn Hs Hr IH|lim off hi lo p rest e' Hhi Hr1 Hlo Hp Hlt Hsub _];
+    intros Hrec Hle Htxt f tgt base nlen nmax Hf Hbase Hnlen Hroom Hfit; assert (Hbl : blen <= 65536) by exact Hsz.
+  - (* root *)
+    rewrite octet_rd in H0. pose proof (rd_bound _ _ _ H0) as B. fold blen in B.
+    destruct f as [|f]; [lia|]. cbn [name_loop].
+    destruct (off >=? blen) eqn:E; [lia|]. rewrite H0. rewrite u32_small by lia.
+    cbn [Z.eqb]. unfold name_finish. cbn [tail_text] in *. change (zlen (@nil Z)) with 0 in *.
+    destruct (nmax >? 0) eqn:E1; [|lia].
+    set (nl := if nlen =? 0 then 1 else nlen).
+    assert (Hnl : nl = Z.max nlen 1) by (subst nl; destruct (nlen =? 0) eqn:E2; lia).
+    replace (base + Z.min nl nmax - 1) with (base + Z.max nlen 1 - 1) by lia.
+    destruct (wr_ok tgt (base + Z.max nlen 1 - 1) 0) as [t' W]; [lia|]. rewrite W.
+    apply wr_inv in W. destruct W as (_ & L & R & O).
+    exists t'. split; [rewrite u32_small by lia; f_equal; lia|].
+    unfold res_ok. change (zlen (@nil Z)) with 0. repeat split; auto; try lia.
+    intros k Hk Hc. apply O. lia.
+  - (* label *)
+    rewrite octet_rd in H0. pose proof (rd_bound _ _ _ H0) as B. fold blen in B.
+    apply slice_spec in Hs. destruct Hs as (S1 & S2 & S3 & S4 & S5). fold blen in S3. unfold MAX_LABEL in Hn.
+    inversion Htxt as [|? ? Hlabtxt Hresttxt]; subst.
+    cbn [tail_text] in *. set (Tr := tail_text rest) in *.
+    assert (HT : zlen (lab ++ 46 :: Tr) = zlen lab + 1 + zlen Tr) by (unfold zlen; rewrite app_length; cbn [length]; lia).
+    rewrite HT in *. assert (HTr : 0 <= zlen Tr) by (unfold zlen; lia).
+    destruct f as [|f]; [lia|]. cbn [name_loop].
+    destruct (off >=? blen) eqn:E; [lia|]. rewrite H0. rewrite (u32_small (off + 1)) by lia.
+    destruct (zlen lab =? 0) eqn:E0; [lia|].
+    rewrite label_type_octet by lia. replace (zlen lab / 64 * 64) with 0 by lia.
+    change (0 =? label_tag) with true. cbn iota.
+    rewrite (u32_small (off + 1 + zlen lab - 1)), (u32_small (off + 1 + zlen lab)) by lia.
+    destruct (off + 1 + zlen lab - 1 >=? blen) eqn:E2; [lia|].
+    unfold append_label, append_copy_len.
+    destruct (nmax >? nlen) eqn:E3; [|lia].
+    replace (Z.min (zlen lab) (nmax - nlen)) with (zlen lab) by lia.
+    destruct (zlen lab >? 0) eqn:E4; [|lia].
+    destruct (copy_bytes_ok (Z.to_nat (zlen lab)) buf (off + 1) tgt (base + nlen)) as (t1 & C1 & L1); try (fold blen; lia).
+    rewrite C1. apply copy_bytes_spec in C1. destruct C1 as (_ & C1 & O1).
+    unfold append_dot, append_copy_len.
+    destruct (nmax >? nlen + zlen lab) eqn:E5; [|lia].
+    replace (Z.min 1 (nmax - (nlen + zlen lab))) with 1 by lia. cbn [Z.gtb Z.compare].
+    destruct (wr_ok t1 (base + (nlen + zlen lab)) 46) as [t2 W]; [lia|]. rewrite W.
+    apply wr_inv in W. destruct W as (_ & L2 & R2 & O2).
+    destruct (IH Hrec ltac:(lia) Hresttxt f t2 base (nlen + zlen lab + 1) nmax) as (t' & Hloop & Hres); try lia.
+    exists t'. split; [exact Hloop|].
+    destruct Hres as (Q1 & Q2 & Q3 & Q4 & Q5). fold Tr in Q2, Q3, Q4, Q5.
+    unfold res_ok. rewrite HT. split; [lia|]. split; [|split; [|split]].
+    + intros k Hk _. rewrite Q2 by lia. rewrite O2 by lia. apply O1. lia.
+    + intros k Hk. destruct (Z_lt_le_dec k (zlen lab)) as [K|K].
+      * rewrite Q2 by lia. rewrite O2 by lia. rewrite (C1 k) by lia.
+        rewrite rd_app_l by lia. rewrite S5 by lia. reflexivity.
+      * destruct (Z.eq_dec k (zlen lab)) as [->|K2].
+        -- rewrite Q2 by lia. replace (base + nlen + zlen lab) with (base + (nlen + zlen lab)) by lia.
+           rewrite R2. rewrite rd_app_r by lia. rewrite Z.sub_diag. reflexivity.
+        -- replace (base + nlen + k) with (base + (nlen + zlen lab + 1) + (k - zlen lab - 1)) by lia.
+           rewrite Q3 by lia. rewrite rd_app_r by lia. rewrite rd_cons by lia. f_equal; lia.
+    + intros _. destruct (Z.eq_dec (zlen Tr) 0) as [Z0|Z0].
+      * rewrite Z0. specialize (Q5 Z0). replace (base + nlen + (zlen lab + 1 + 0) - 1) with (base + Z.max (nlen + zlen lab + 1) 1 - 1) by lia. exact Q5.
+      * replace (base + nlen + (zlen lab + 1 + zlen Tr) - 1) with (base + (nlen + zlen lab + 1) + zlen Tr - 1) by lia.
+        apply Q4. lia.
+    + intros X. lia.
+  - (* pointer *)
+    rewrite octet_rd in Hhi, Hlo. pose proof (rd_bound _ _ _ Hhi) as B. pose proof (rd_bound _ _ _ Hlo) as B2.
+    fold blen in B, B2. pose proof (rd_byte _ _ _ HB Hlo) as Blo. unfold POINTER_TAG in *.
+    set (T := tail_text rest) in *. assert (HT0 : 0 <= zlen T) by (unfold zlen; lia).
+    destruct f as [|f]; [lia|]. cbn [name_loop].
+    destruct (off >=? blen) eqn:E; [lia|]. rewrite Hhi. rewrite (u32_small (off + 1)) by lia.
+    destruct (hi =? 0) eqn:E0; [lia|].
+    rewrite label_type_octet by lia. replace (hi / 64 * 64) with 192 by lia.
+    change (192 =? label_tag) with false. change (192 =? pointer_tag) with true. cbn iota.
+    destruct (off + 1 >=? blen) eqn:E2; [lia|]. rewrite Hlo.
+    rewrite pointer_octets by lia. replace (hi mod 64 * 256 + lo) with p by lia.
+    pose proof (name_run_facts _ _ _ _ _ Hsub) as (F1 & F2 & F3).
+    rewrite (u32_small p), (u32_small (off + 1 + 1)) by lia.
+    rewrite pointer_guard_spec. destruct (lim <=? p) eqn:E3; [lia|].
+    destruct ((nlen >=? nmax) && (nmax >? 0)) eqn:E4; [lia|].
+    destruct (nmax >? nlen) eqn:E5; [|lia].
+    destruct (Hrec p rest e' tgt (base + nlen) (nmax - nlen) Hlt Hsub Htxt) as (tB & -> & RB); try (fold T; lia).
+    fold T in RB. destruct RB as (Q1 & Q2 & Q3 & Q4 & Q5).
+    destruct (e' - p =? 0) eqn:E6; [lia|].
+    rewrite (u32_small (off + 1 + 1 - lim)) by lia. replace (off + 1 + 1 - lim) with (off + 2 - lim) by lia.
+    destruct (nlen >? 0) eqn:E7.
+    + destruct (Z.eq_dec (zlen T) 0) as [Z0|Z0].
+      * (* the pointer leads to the root: the dot after the last label is replaced *)
+        specialize (Q5 Z0). replace (base + nlen + Z.max 0 1 - 1) with (base + nlen) in Q5 by lia. rewrite Q5.
+        cbn [Z.eqb].
+        destruct (wr_ok tB (base + nlen - 1) 0) as [tC W]; [lia|]. rewrite W.
+        apply wr_inv in W. destruct W as (_ & LC & RC & OC).
+        exists tC. split; [reflexivity|]. unfold res_ok. rewrite Z0.
+        split; [lia|]. split; [|split; [|split]].
+        -- intros k Hk Hc. rewrite OC by lia. apply Q2; lia.
+        -- intros k Hk. lia.
+        -- intros X. lia.
+        -- intros _. replace (base + Z.max nlen 1 - 1) with (base + nlen - 1) by lia. exact RC.
+      * (* a further label follows: its first octet is not NUL, nothing is repaired *)
+        destruct rest as [|lab rest]; [subst T; unfold zlen in Z0; cbn in Z0; lia|].
+        inversion Htxt as [|? ? Hlabtxt _]; subst. inversion F3 as [|? ? Hlablen _]; subst.
+        destruct (rd_head_nonzero lab Hlablen Hlabtxt) as (c & Hc & Hc0).
+        assert (HT2 : 2 <= zlen T).
+        { subst T. cbn [tail_text]. unfold zlen in *. rewrite app_length. cbn [length]. lia. }
+        assert (Hfirst : rd tB (base + nlen) = Some c).
+        { replace (base + nlen) with (base + nlen + 0 + 0) by lia. rewrite Q3 by lia.
+          subst T. cbn [tail_text]. rewrite rd_app_l by lia. exact Hc. }
+        rewrite Hfirst. destruct (c =? 0) eqn:E8; [lia|].
+        exists tB. split; [reflexivity|]. unfold res_ok.
+        split; [lia|]. split; [|split; [|split]].
+        -- intros k Hk Hcnd. apply Q2; lia.
+        -- intros k Hk. replace (base + nlen + k) with (base + nlen + 0 + k) by lia. apply Q3. lia.
+        -- intros X. replace (base + nlen + zlen T - 1) with (base + nlen + 0 + zlen T - 1) by lia. apply Q4. lia.
+        -- intros X. lia.
+    + assert (nlen = 0) by lia. subst nlen.
+      exists tB. split; [reflexivity|]. unfold res_ok.
+      split; [lia|]. split; [|split; [|split]].
+      * intros k Hk Hc. apply Q2; lia.
+      * intros k Hk. replace (base + 0 + k) with (base + 0 + 0 + k) by lia. apply Q3. lia.
+      * intros X. replace (base + 0 + zlen T - 1) with (base + 0 + 0 + zlen T - 1) by lia. apply Q4; lia.
+      * intros X. replace (base + Z.max 0 1 - 1) with (base + 0 + Z.max 0 1 - 1) by lia. apply Q5; lia.
+Qed.
+
+Lemma target_get : forall d off labels e tgt base nmax f,
+  name_run buf off off labels e -> text_labels labels -> Z.of_nat d > off -> Z.of_nat f > blen ->
+  0 <= base -> zlen (tail_text labels) < nmax -> base + nmax <= zlen tgt ->
+  exists tgt', name_get d f buf blen off tgt (Some base) nmax = NRet (e - off) tgt' /\
+               res_ok tgt tgt' base 0 (tail_text labels).
+Proof.
+  induction d as [|d IH]; intros off labels e tgt base nmax f H Htxt Hd Hf Hb Hroom Hfit.
+  - pose proof (name_run_facts _ _ _ _ _ H). lia.
+  - cbn [name_get]. pose proof (name_run_facts _ _ _ _ _ H) as (F1 & F2 & _). fold blen in F1.
+    eapply target_loop; eauto; try lia.
+    intros p labels' e'' t' b' m' Hp Hrun Htxt' Hb' Hroom' Hfit'. pose proof (name_run_facts _ _ _ _ _ Hrun).
+    eapply IH; eauto; lia.
+Qed.
+
+(* the C string left in a fresh target field is the dotted name *)
+Lemma target_text d f off labels e :
+  wf_name buf off labels e -> text_labels labels -> Z.of_nat d > off -> Z.of_nat f > blen ->
+  exists tgt', name_get d f buf blen off (repeat 0 (Z.to_nat MAX_DOMAIN_LEN)) (Some 0) MAX_DOMAIN_LEN = NRet (e - off) tgt' /\
+               zlen tgt' = MAX_DOMAIN_LEN /\ cstr tgt' = Some (dotted labels).
+Proof.
+  intros [Hrun Hwire] Htxt Hd Hf. unfold name_at in Hrun. unfold MAX_NAME_WIRE in Hwire.
+  rewrite wire_len_tail in Hwire.
+  set (t0 := repeat 0 (Z.to_nat MAX_DOMAIN_LEN)).
+  assert (L0 : zlen t0 = MAX_DOMAIN_LEN) by (unfold zlen, t0; rewrite repeat_length; reflexivity).
+  destruct (target_get d off labels e t0 0 MAX_DOMAIN_LEN f Hrun Htxt Hd Hf) as (t' & G & R); try (unfold MAX_DOMAIN_LEN in *; lia).
+  exists t'. split; [exact G|]. destruct R as (Q1 & Q2 & Q3 & Q4 & Q5). split; [lia|].
+  destruct labels as [|l r].
+  - cbn [tail_text dotted] in *. apply cstr_pointwise; [intros k Hk; unfold zlen in Hk; cbn in Hk; lia| |intros []].
+    change (zlen (@nil Z)) with 0 in *. apply Q5. reflexivity.
+  - assert (TT := tail_text_dotted (l :: r) ltac:(discriminate)).
+    assert (LT : zlen (tail_text (l :: r)) = zlen (dotted (l :: r)) + 1).
+    { rewrite TT. unfold zlen. rewrite app_length. cbn [length]. lia. }
+    apply cstr_pointwise.
+    + intros k Hk. replace k with (0 + 0 + k) at 1 by lia. rewrite Q3 by lia.
+      rewrite TT. apply rd_app_l. lia.
+    + replace (zlen (dotted (l :: r))) with (0 + 0 + zlen (tail_text (l :: r)) - 1) by lia.
+      apply Q4. unfold zlen in *. lia.
+    + apply dotted_nul_free. exact Htxt.
+Qed.
+
+End Names.
+
+(* ------------------------------------------------------------------------------------------ *)
+(* (4) the sections of a well-formed response                                                   *)
+(* ------------------------------------------------------------------------------------------ *)
+Section Sections.
+Variable buf : list Z.
+Hypothesis HB : bytes buf.
+Hypothesis Hsz : zlen buf <= 65536.
+Let blen := zlen buf.
+Let fuel := S (length buf).
+
+Lemma be16_rd16 i v : be16 buf i = Some v -> 0 <= i -> rd16 buf i = Some v.
+Proof.
+  intros H Hi. revert H. unfold be16, rd16, octet. fold (rd buf i). fold (rd buf (i + 1)).
+  destruct (rd buf i) as [a|] eqn:A; [|intros X; discriminate X].
+  destruct (rd buf (i + 1)) as [b|] eqn:Bq; [|intros X; discriminate X].
+  pose proof (rd_bound _ _ _ Bq). rewrite u32_small by lia. rewrite Bq.
+  pose proof (rd_byte _ _ _ HB A). pose proof (rd_byte _ _ _ HB Bq).
+  intros X; inversion X; subst. f_equal. apply Z.mod_small. lia.
+Qed.
+
+Lemma fuel_big : Z.of_nat fuel > blen.
+Proof. unfold fuel, blen, zlen. lia. Qed.
+
+Lemma wf_name_skip off labels e : wf_name buf off labels e ->
+  name_len_at fuel buf blen off = NRet (e - off) [] /\ off + 1 <= e <= blen /\ 0 <= off.
+Proof.
+  intros [Hrun _]. unfold name_at in Hrun. pose proof (name_run_facts _ _ _ _ _ Hrun) as (F1 & F2 & _).
+  pose proof fuel_big. split; [|fold blen in F1; lia]. unfold name_len_at.
+  apply (skip_get buf HB Hsz fuel off labels e [] SIZE_MAX fuel Hrun); fold blen in F1; lia.
+Qed.
+
+Lemma questions_ok : forall off n e, questions_at buf off n e -> 0 <= off < 4294967296 ->
+  skip_questions n fuel buf blen off = QOk e /\ off <= e <= Z.max off blen.
+Proof.
+  induction 1 as [off|off labels e n e' Hn Hfit Hq IH]; intros Hoff.
+  - cbn [skip_questions]. split; [reflexivity|lia].
+  - destruct (wf_name_skip _ _ _ Hn) as (Hskip & Hb & H0). fold blen in Hfit.
+    assert (Hbl : blen <= 65536) by exact Hsz. unfold QUESTION_FIXED in *.
+    cbn [skip_questions]. change (ovf_k 0) with 0. rewrite ovf_check_spec, Z.add_0_r, u32_small by lia.
+    destruct (blen <=? off) eqn:E; [lia|]. rewrite Hskip.
+    destruct (e - off =? 0) eqn:E2; [lia|]. change q_tail with 4.
+    rewrite (u32_small (e - off + 4)) by lia. replace (off + (e - off + 4)) with (e + 4) by lia.
+    rewrite u32_small by lia. destruct (IH ltac:(lia)) as (I1 & I2). split; [exact I1|lia].
+Qed.
+
+Definition status_of (l : list srv_rr) : Z :=
+  match l with [] => XMPP_DOMAIN_NOT_FOUND | _ => XMPP_DOMAIN_FOUND end.
+
+Lemma answers_wf : forall off ans e', answers_at buf off ans e' -> srv_targets_text ans ->
+  0 <= off < 4294967296 ->
+  forall l, exists l', answers (length ans) fuel buf blen off l = LDone (status_of l') l' /\
+                       map rr_view l' = rev (map expected_view (srv_answers ans)) ++ map rr_view l.
+Proof.
+  assert (Hbl : blen <= 65536) by exact Hsz. pose proof fuel_big as Hfuel.
+  induction 1 as [off|off owner e rdl prio weight port target rest e' Hown Hty Hcl Hrdl Hfit Hp Hw Hpo Htgt Hrest IH
+                 |off owner e ty cl rdl rest e' Hown Hty Hcl Hno Hrdl Hfit Hrest IH]; intros Htxt Hoff l.
+  - cbn [length answers srv_answers map rev app]. exists l. split; reflexivity.
+  - destruct (wf_name_skip _ _ _ Hown) as (Hskip & Hb & H0). fold blen in Hfit.
+    inversion Htxt as [|? ? Htt Hresttxt]; subst.
+    unfold RR_TYPE_OFF, RR_CLASS_OFF, RR_RDLENGTH_OFF, RR_FIXED, SRV_PRIORITY_OFF, SRV_WEIGHT_OFF, SRV_PORT_OFF,
+      SRV_TARGET_OFF, TYPE_SRV, CLASS_IN in *.
+    rewrite ?Z.add_0_r in *.
+    pose proof (be16_rd16 _ _ Hrdl ltac:(lia)) as Rrdl. pose proof Rrdl as Rb. unfold rd16 in Rb.
+    assert (Hrdlb : 0 <= rdl < 65536).
+    { destruct (rd buf (e + 8)); [|discriminate]. destruct (rd buf (u32 (e + 8 + 1))); [|discriminate].
+      inversion Rb. apply Z.mod_pos_bound. lia. }
+    destruct Htgt as [Htrun Htwire]. pose proof Htrun as Htrun'. unfold name_at in Htrun'.
+    pose proof (name_run_facts _ _ _ _ _ Htrun') as (T1 & T2 & _). fold blen in T1.
+    cbn [length answers]. change (ovf_k 1) with 0. change (ovf_k 2) with 9. change (ovf_k 3) with 6.
+    rewrite ovf_check_spec, Z.add_0_r, (u32_small off) by lia.
+    destruct (blen <=? off) eqn:E; [lia|]. rewrite Hskip.
+    destruct (e - off =? 0) eqn:E2; [lia|]. replace (off + (e - off)) with e by lia.
+    rewrite (u32_small e) by lia. rewrite (u32_small (e + 9)), ovf_check_spec by lia.
+    destruct (blen <=? e + 9) eqn:E3; [lia|].
+    change rr_type_off with 0. change rr_class_off with 2. change rr_rdlength_off with 8. change rr_fixed_len with 10.
+    rewrite Z.add_0_r, (u32_small e), (u32_small (e + 2)), (u32_small (e + 8)), (u32_small (e + 10)) by lia.
+    rewrite (be16_rd16 _ _ Hty ltac:(lia)), (be16_rd16 _ _ Hcl ltac:(lia)), Rrdl.
+    change ((33 =? MESSAGE_T_SRV) && (1 =? MESSAGE_C_IN)) with true. cbn iota.
+    rewrite (u32_small (e + 10 + 6)), ovf_check_spec by lia.
+    destruct (blen <=? e + 10 + 6) eqn:E4; [lia|].
+    change srv_prio_off with 0. change srv_weight_off with 2. change srv_port_off with 4. change srv_target_off with 6.
+    rewrite Z.add_0_r, (u32_small (e + 10)), (u32_small (e + 10 + 2)), (u32_small (e + 10 + 4)), (u32_small (e + 10 + 6)) by lia.
+    rewrite (be16_rd16 _ _ Hp ltac:(lia)), (be16_rd16 _ _ Hw ltac:(lia)), (be16_rd16 _ _ Hpo ltac:(lia)).
+    destruct (target_text buf HB Hsz fuel fuel (e + 10 + 6) target (e + 10 + rdl) (conj Htrun Htwire) Htt) as (tg & G & Ltg & Ctg);
+      try (fold blen; lia).
+    fold blen in G. rewrite G.
+    destruct (e + 10 + rdl - (e + 10 + 6) >? 0) eqn:E5; [|lia].
+    rewrite (u32_small (e + 10 + rdl)) by lia.
+    destruct (IH Hresttxt ltac:(lia) (mk_rr prio weight port tg :: l)) as (l' & A1 & A2).
+    exists l'. split; [exact A1|]. rewrite A2. cbn [srv_answers map rev expected_view].
+    rewrite <- app_assoc. cbn [app map]. unfold rr_view. cbn [rr_priority rr_weight rr_port rr_target].
+    rewrite Ctg. reflexivity.
+  - destruct (wf_name_skip _ _ _ Hown) as (Hskip & Hb & H0). fold blen in Hfit.
+    inversion Htxt as [|? ? Htt Hresttxt]; subst.
+    unfold RR_TYPE_OFF, RR_CLASS_OFF, RR_RDLENGTH_OFF, RR_FIXED, TYPE_SRV, CLASS_IN in *.
+    rewrite ?Z.add_0_r in *.
+    pose proof (be16_rd16 _ _ Hrdl ltac:(lia)) as Rrdl. pose proof Rrdl as Rb. unfold rd16 in Rb.
+    assert (Hrdlb : 0 <= rdl < 65536).
+    { destruct (rd buf (e + 8)); [|discriminate]. destruct (rd buf (u32 (e + 8 + 1))); [|discriminate].
+      inversion Rb. apply Z.mod_pos_bound. lia. }
+    cbn [length answers]. change (ovf_k 1) with 0. change (ovf_k 2) with 9.
+    rewrite ovf_check_spec, Z.add_0_r, (u32_small off) by lia.
+    destruct (blen <=? off) eqn:E; [lia|]. rewrite Hskip.
+    destruct (e - off =? 0) eqn:E2; [lia|]. replace (off + (e - off)) with e by lia.
+    rewrite (u32_small e) by lia. rewrite (u32_small (e + 9)), ovf_check_spec by lia.
+    destruct (blen <=? e + 9) eqn:E3; [lia|].
+    change rr_type_off with 0. change rr_class_off with 2. change rr_rdlength_off with 8. change rr_fixed_len with 10.
+    rewrite Z.add_0_r, (u32_small e), (u32_small (e + 2)), (u32_small (e + 8)), (u32_small (e + 10)) by lia.
+    rewrite (be16_rd16 _ _ Hty ltac:(lia)), (be16_rd16 _ _ Hcl ltac:(lia)), Rrdl.
+    change MESSAGE_T_SRV with 33. change MESSAGE_C_IN with 1.
+    destruct ((ty =? 33) && (cl =? 1)) eqn:E4; [exfalso; apply Hno; lia|].
+    rewrite (u32_small (e + 10 + rdl)) by lia.
+    destruct (IH Hresttxt ltac:(lia) l) as (l' & A1 & A2).
+    exists l'. split; [exact A1|]. rewrite A2. reflexivity.
+Qed.
+
+End Sections.
+
+Lemma lookup_wellformed buf ans :
+  wf_response buf ans -> srv_targets_text ans ->
+  exists st l, lookup buf = LDone st l /\
+    (st = XMPP_DOMAIN_FOUND \/ st = XMPP_DOMAIN_NOT_FOUND) /\
+    (st = XMPP_DOMAIN_FOUND <-> srv_answers ans <> []) /\
+    Permutation (map rr_view l) (map expected_view (srv_answers ans)) /\
+    StronglySorted srv_le l.
+Proof.
+  intros [HB Hsz Hhdr (o2 & Ho2 & Hqr) (o3 & Ho3 & Hrc) (qd & e1 & e2 & Hqd & Han & Hq & Ha)] Htxt.
+  unfold HEADER_LEN, HDR_FLAGS_HI_OFF, HDR_FLAGS_LO_OFF, HDR_QDCOUNT_OFF, HDR_ANCOUNT_OFF, QR_RESPONSE in *.
+  rewrite octet_rd in Ho2, Ho3.
+  destruct (questions_ok buf HB Hsz 12 qd e1 Hq ltac:(lia)) as (Q1 & Q2).
+  destruct (answers_wf buf HB Hsz e1 ans e2 Ha Htxt ltac:(lia) []) as (l' & A1 & A2).
+  cbn [map] in A2. rewrite app_nil_r in A2.
+  assert (Hraw : lookup_raw buf = LDone (status_of l') l').
+  { unfold lookup_raw. change MESSAGE_HEADER_LEN with 12.
+    destruct (zlen buf <? 12) eqn:E; [lia|].
+    change hdr_octet2_off with 2. change hdr_octet3_off with 3.
+    change hdr_qdcount_off with 4. change hdr_ancount_off with 6.
+    rewrite Ho2, Ho3, (be16_rd16 buf HB Hsz _ _ Hqd ltac:(lia)), (be16_rd16 buf HB Hsz _ _ Han ltac:(lia)).
+    rewrite qr_octet by (eapply rd_byte; eauto). rewrite rcode_octet by (eapply rd_byte; eauto).
+    rewrite Hqr, Hrc. change (negb (1 =? MESSAGE_RESPONSE) || negb (0 =? 0)) with false. cbn iota.
+    rewrite Nat2Z.id, Q1. unfold zlen. rewrite Nat2Z.id. exact A1. }
+  assert (Hun : lookup_unsorted buf = LDone (status_of l') l').
+  { unfold lookup_unsorted. rewrite Hraw. destruct l'; reflexivity. }
+  destruct (srv_sort_fuel_enough l') as (l2 & Hs).
+  exists (status_of l'), l2. unfold lookup. rewrite Hun, Hs. split; [reflexivity|].
+  apply srv_sort_sorted in Hs. destruct Hs as [P S].
+  assert (Hperm : Permutation (map rr_view l2) (map expected_view (srv_answers ans))).
+  { eapply perm_trans; [apply Permutation_map, Permutation_sym; exact P|].
+    rewrite A2. apply Permutation_sym, Permutation_rev. }
+  split; [destruct l'; [right|left]; reflexivity|]. split; [|split; [exact Hperm|exact S]].
+  assert (Hl' : l' = [] <-> srv_answers ans = []).
+  { assert (Hlen : length l' = length (srv_answers ans)).
+    { apply (f_equal (@length _)) in A2. rewrite rev_length, !map_length in A2. exact A2. }
+    split; intros X; rewrite X in Hlen; cbn [length] in Hlen.
+    - destruct (srv_answers ans); [reflexivity|discriminate].
+    - destruct l'; [reflexivity|discriminate]. }
+  destruct l' as [|r l']; cbn [status_of].
+  - split; [discriminate|]. intros X. exfalso. apply X. apply Hl'. reflexivity.
+  - split; [|reflexivity]. intros _ X. apply Hl' in X. discriminate.
+Qed.
+
+(* ------------------------------------------------------------------------------------------ *)
+(* the hypotheses of the theorems are satisfiable: a 33-octet response with one SRV answer whose  *)
+(* target is the label "a" followed by a compression pointer to the root octet at offset 12       *)
+(* ------------------------------------------------------------------------------------------ *)
+Definition example_response : list Z :=
+  [0; 0; 129; 128; 0; 0; 0; 1; 0; 0; 0; 0;
+   0; 0; 33; 0; 1; 0; 0; 0; 0; 0; 10;
+   0; 1; 0; 2; 20; 102; 1; 97; 192; 12].
+
+Example example_bytes : bytes example_response /\ zlen example_response <= 65536.
+Proof. split; [unfold bytes, is_byte; repeat constructor; lia|vm_compute; discriminate]. Qed.
+
+Example example_wf : wf_response example_response [AnsSrv 1 2 5222 [[97]]] /\
+                     srv_targets_text [AnsSrv 1 2 5222 [[97]]].
+Proof.
+  split.
+  - constructor.
+    + apply example_bytes.
+    + apply example_bytes.
+    + vm_compute; discriminate.
+    + exists 129. split; reflexivity.
+    + exists 128. split; reflexivity.
+    + exists O, 12, 33. repeat split; try reflexivity; [constructor|].
+      apply (AA_srv example_response 12 [] 13 10 1 2 5222 [[97]] [] 33); try reflexivity.
+      * split; [apply NR_root; reflexivity|vm_compute; discriminate].
+      * split; [|vm_compute; discriminate].
+        apply (NR_label example_response 29 29 1 [97] [] 33); try reflexivity; [unfold MAX_LABEL; lia|].
+        apply (NR_pointer example_response 29 31 192 12 12 [] 13); try reflexivity; [unfold POINTER_TAG; lia|].
+        apply NR_root. reflexivity.
+      * apply AA_nil.
+  - repeat constructor; discriminate.
+Qed.
+
+Example example_lookup :
+  exists l, lookup example_response = LDone XMPP_DOMAIN_FOUND l /\
+            map rr_view l = [(1, 2, 5222, Some [97])].
+Proof. eexists. split; vm_compute; reflexivity. Qed.
+
+Example example_sort :
+  srv_sort [mk_rr 10 0 1 []; mk_rr 5 1 2 []; mk_rr 5 7 3 []] =
+  Some [mk_rr 5 7 3 []; mk_rr 5 1 2 []; mk_rr 10 0 1 []].
+Proof. reflexivity. Qed.
